@@ -109,7 +109,7 @@ func (l Layout) Kind() string {
 func (l Layout) IsContig() bool {
 	return len(l.Steps) == 0 || l.Final == "mat" || l.Final == "phys" || l.Final == "pbdec"
 }
-func (l Layout) IsCM() bool     { return l.Root != "rm" }
+func (l Layout) IsCM() bool { return l.Root != "rm" }
 
 // onlyTransposed: a whole tensor with nothing but lazy transpositions pending (its offsets are a
 // permutation of 0..n-1).
